@@ -255,6 +255,147 @@ func runC10(c *ctx, r *Report) error {
 		}
 	}
 	r.sample(map[string]interface{}{"files": len(files), "repositories": []string{"repo", "repo2"}, "example_alone": alone[files[1]]})
+	// nested repositories (a repository vendored inside another one): a file belongs to the innermost repository that
+	// contains it, whatever was linted before it in the same run
+	{
+		outer := filepath.Join(tmp, "outer")
+		inner := filepath.Join(outer, "vendor", "inner")
+		for _, rr := range []struct{ root, label string }{{outer, "outer-box"}, {inner, "inner-box"}} {
+			os.MkdirAll(filepath.Join(rr.root, ".git"), 0o755)
+			os.MkdirAll(filepath.Join(rr.root, ".github", "workflows"), 0o755)
+			os.WriteFile(filepath.Join(rr.root, ".github", "actionlint.yaml"), []byte("self-hosted-runner:\n  labels: ["+rr.label+"]\n"), 0o644)
+			os.WriteFile(filepath.Join(rr.root, ".github", "workflows", "w.yml"), []byte("on: push\njobs:\n  j:\n    runs-on: "+rr.label+"\n    steps:\n      - run: echo\n"), 0o644)
+		}
+		fo, fi := filepath.Join(outer, ".github", "workflows", "w.yml"), filepath.Join(inner, ".github", "workflows", "w.yml")
+		aloneN := map[string]string{}
+		for _, f := range []string{fo, fi} {
+			l, err := actionlint.NewLinter(nopWriter{}, &actionlint.LinterOptions{Shellcheck: "", Pyflakes: ""})
+			if err != nil {
+				return err
+			}
+			errs, err := l.LintFile(f, nil)
+			r.Evaluations++
+			if err != nil {
+				return err
+			}
+			aloneN[f] = canon(errs)[f]
+		}
+		for _, order := range [][]string{{fo, fi}, {fi, fo}} {
+			l, err := actionlint.NewLinter(nopWriter{}, &actionlint.LinterOptions{Shellcheck: "", Pyflakes: ""})
+			if err != nil {
+				return err
+			}
+			errs, err := l.LintFiles(order, nil)
+			r.Evaluations++
+			if err != nil {
+				return err
+			}
+			per := canon(errs)
+			for _, f := range order {
+				r.nontrivial("nested:" + f + order[0])
+				if per[f] != aloneN[f] {
+					r.finding("nested-repository-attribution", fmt.Sprintf("a file of a repository nested inside another one gets other diagnostics in a joint run than alone (%s)", strings.TrimPrefix(f, tmp+"/")),
+						Case{Op: "lintfiles", Input: map[string]string{"files_in_order": strings.TrimPrefix(order[0], tmp+"/") + " " + strings.TrimPrefix(order[1], tmp+"/")}, Impl: per[f], Model: aloneN[f]})
+				}
+			}
+		}
+		r.Rule += "; a repository nested inside another one (own configuration each), both argument orders"
+	}
+	// tie of the model AL.Projects (AL.Props.C10Projects: the answer of Projects.At is the innermost repository root above
+	// the path, whatever was looked up before): random directory trees with repositories at random depths, also nested
+	// in each other, random sequences of lookups through one Projects value
+	{
+		var b batch
+		b.judge = func(cs Case) (string, string) {
+			return "project-attribution-differs", "Projects.At attributes a path to another repository than the innermost one that contains it, or the answer depends on earlier lookups (got " + cs.Impl + ", innermost-root rule gives " + cs.Model + ")"
+		}
+		nTrees := 40
+		if !c.quick {
+			nTrees = 600
+		}
+		names := []string{"a", "b", "vendor", "x1"}
+		for t := 0; t < nTrees; t++ {
+			base := filepath.Join(tmp, fmt.Sprintf("tree%d", t))
+			// directories: all paths of depth ≤ 3 over `names`, a random subset of them are repository roots
+			var dirs [][]string
+			var gen func(prefix []string, depth int)
+			gen = func(prefix []string, depth int) {
+				if len(prefix) > 0 {
+					dirs = append(dirs, append([]string{}, prefix...))
+				}
+				if depth == 0 {
+					return
+				}
+				for _, n := range names[:2+rng.Intn(2)] {
+					if rng.Intn(3) != 0 {
+						gen(append(prefix, n), depth-1)
+					}
+				}
+			}
+			gen(nil, 3)
+			var roots [][]string
+			for _, d := range dirs {
+				if rng.Intn(4) == 0 {
+					roots = append(roots, d)
+					os.MkdirAll(filepath.Join(append([]string{base}, append(d, ".git")...)...), 0o755)
+					os.MkdirAll(filepath.Join(append([]string{base}, append(d, ".github", "workflows")...)...), 0o755)
+				} else {
+					os.MkdirAll(filepath.Join(append([]string{base}, d...)...), 0o755)
+				}
+			}
+			// lookups: files in random directories (also inside .github/workflows of a root)
+			var paths [][]string
+			for k := 0; k < 6 && len(dirs) > 0; k++ {
+				d := dirs[rng.Intn(len(dirs))]
+				p := append(append([]string{}, d...), "w.yml")
+				if rng.Intn(2) == 0 && len(roots) > 0 {
+					rt := roots[rng.Intn(len(roots))]
+					p = append(append([]string{}, rt...), ".github", "workflows", "w.yml")
+				}
+				paths = append(paths, p)
+			}
+			ps := actionlint.NewProjects()
+			var got []string
+			for _, p := range paths {
+				proj, err := ps.At(filepath.Join(append([]string{base}, p...)...))
+				r.Evaluations++
+				if err != nil || proj == nil {
+					got = append(got, "-")
+					continue
+				}
+				rel, _ := filepath.Rel(base, proj.RootDir())
+				got = append(got, "/"+filepath.ToSlash(rel))
+			}
+			enc := func(ll [][]string) string {
+				if len(ll) == 0 {
+					return "E"
+				}
+				var items []string
+				for _, l := range ll {
+					var hs []string
+					for _, x := range l {
+						hs = append(hs, hx(x))
+					}
+					items = append(items, sexpList(hs))
+				}
+				return sexpList(items)
+			}
+			show := func(ll [][]string) string {
+				var out []string
+				for _, l := range ll {
+					out = append(out, "/"+strings.Join(l, "/"))
+				}
+				return strings.Join(out, " ")
+			}
+			r.nontrivial(fmt.Sprintf("tree%d", t))
+			b.add("projectat "+enc(roots)+" "+enc(paths), strings.Join(got, ";"), Case{Op: "projectat", Input: map[string]string{"repository_roots": show(roots), "lookups_in_order": show(paths)}})
+			os.RemoveAll(base)
+		}
+		if _, err := b.flush(c, r); err != nil {
+			return err
+		}
+		r.Rule += fmt.Sprintf("; model tie: %d random directory trees (depth ≤ 3, repositories at random places incl. nested), 6 lookups each through one Projects value vs AL.Projects.atAll", nTrees)
+	}
 	// "their own defects are reported once per run": a third repository whose local actions / reusable workflows are
 	// defective (metadata without description, unparseable metadata, unparseable reusable workflow, missing one),
 	// referenced from three files, by steps with and without id:. Every run that references a defective callee
